@@ -20,7 +20,7 @@ def cases(tier, seed=0):
         dims = [(1, 1), (2, 2)] if ident else [(1, 1), (2, 1), (1, 2), (2, 2)]
         for (Dx, Dy) in dims:
             for (Rc, Rx) in batches:
-                if kind == "nncontrol" and Rc > 1:
+                if kind == "nncontrol" and Rc > 2:
                     continue
                 if (Dx, Dy) == (2, 2):
                     # 2+2: fully symbolic does not finish (gcd); prior covariance bound to generic rationals
@@ -30,7 +30,7 @@ def cases(tier, seed=0):
         if tier == "thorough" and not ident:
             for (Dx, Dy) in [(3, 1), (1, 3), (2, 3), (3, 2)]:
                 for (Rc, Rx) in batches + [(1, 3), (3, 1)]:
-                    if kind == "nncontrol" and Rc > 1:
+                    if kind == "nncontrol" and Rc > 2:
                         continue
                     out.append(make_case(PROP, "joint", kind, Dx, Dy, Rc, Rx, semi=("Sx",), timeout=900))
                     out.append(make_case(PROP, "joint", kind, Dx, Dy, Rc, Rx, semi=("Sy", "M"), timeout=900))
@@ -46,5 +46,5 @@ def cases(tier, seed=0):
                 continue
             sm = var + ((("Sx",) if dd == (2, 2) else ()))
             out.append(make_case(PROP, "joint", kind, dd[0], dd[1], 1, 1, semi=sm, timeout=600))
-            out.append(make_case(PROP, "joint", kind, 1, 1, 1 if kind == "nncontrol" else 2, 1, semi=var, timeout=600))
+            out.append(make_case(PROP, "joint", kind, 1, 1, 2, 1, semi=var, timeout=600))
     return [c for c in out if c is not None]
